@@ -36,6 +36,8 @@ use tokio::io::{AsyncBufReadExt, AsyncWriteExt, BufReader};
 static PANICS: OnceLock<Mutex<Vec<Value>>> = OnceLock::new();
 static SHARED: OnceLock<SharedState> = OnceLock::new();
 static LOGGERS: OnceLock<Mutex<HashMap<String, Arc<RollingLogger>>>> = OnceLock::new();
+static BPF: OnceLock<Arc<std::sync::Mutex<agentlib::redirector::BpfObject>>> = OnceLock::new();
+static BPF_MAP_IDS: OnceLock<HashMap<String, u32>> = OnceLock::new();
 static EXT_STATES: OnceLock<Mutex<HashMap<String, extlib::service_main::service_state::ServiceState>>> =
     OnceLock::new();
 
@@ -749,6 +751,119 @@ async fn dispatch(op: String, a: Value) -> Value {
                 st,
             );
             json!({})
+        }
+        // ---- real kernel BPF maps/programs through the production BpfObject (aya glue)
+        "bpf_load" => {
+            use aya::maps::Map;
+            let path = PathBuf::from(s(&a, "path"));
+            match agentlib::redirector::BpfObject::from_ebpf_file(&path) {
+                Ok(obj) => {
+                    let mut ids = HashMap::new();
+                    for name in ["audit_map", "policy_map", "skip_process_map", "local_map"] {
+                        if let Some(m) = obj.get_bpf().map(name) {
+                            let md = match m {
+                                Map::HashMap(md) | Map::LruHashMap(md) => Some(md),
+                                _ => None,
+                            };
+                            if let Some(md) = md {
+                                if let Ok(info) = md.info() {
+                                    ids.insert(name.to_string(), info.id());
+                                }
+                            }
+                        }
+                    }
+                    let _ = BPF_MAP_IDS.set(ids.clone());
+                    let _ = BPF.set(Arc::new(std::sync::Mutex::new(obj)));
+                    json!({ "map_ids": ids })
+                }
+                Err(e) => json!({"err": e.to_string()}),
+            }
+        }
+        "bpf_startup_maps" => {
+            // what Redirector::start_internal does before attaching: skip map + one policy element per endpoint
+            let obj = match BPF.get() { Some(o) => o, None => return json!({"err": "not loaded"}) };
+            let mut o = obj.lock().unwrap();
+            let pid = u(&a, "pid", std::process::id() as u64) as u32;
+            let mut errs = Vec::new();
+            if let Err(e) = o.update_skip_process_map(pid) { errs.push(e.to_string()); }
+            use agentlib::common::constants as c;
+            for (on, name, ip, port) in [(b(&a, "wireserver"), "WireServer endpoints", c::WIRE_SERVER_IP_NETWORK_BYTE_ORDER, c::WIRE_SERVER_PORT),
+                                          (b(&a, "imds"), "IMDS endpoints", c::IMDS_IP_NETWORK_BYTE_ORDER, c::IMDS_PORT),
+                                          (b(&a, "hostga"), "Host GAPlugin endpoints", c::GA_PLUGIN_IP_NETWORK_BYTE_ORDER, c::GA_PLUGIN_PORT)] {
+                if on {
+                    if let Err(e) = o.update_policy_elem_bpf_map(name, u(&a, "local_port", 3080) as u16, ip, port) { errs.push(e.to_string()); }
+                }
+            }
+            json!({ "errors": errs })
+        }
+        "bpf_attach_cgroup" => {
+            let obj = match BPF.get() { Some(o) => o, None => return json!({"err": "not loaded"}) };
+            match obj.lock().unwrap().attach_cgroup_program(PathBuf::from(s(&a, "cgroup"))) {
+                Ok(()) => json!({}),
+                Err(e) => json!({"err": e.to_string()}),
+            }
+        }
+        "bpf_attach_kprobe" => {
+            let obj = match BPF.get() { Some(o) => o, None => return json!({"err": "not loaded"}) };
+            match obj.lock().unwrap().attach_kprobe_program() {
+                Ok(()) => json!({}),
+                Err(e) => json!({"err": e.to_string()}),
+            }
+        }
+        "bpf_install" => {
+            let obj = match BPF.get() { Some(o) => o.clone(), None => return json!({"err": "not loaded"}) };
+            let rs = shared().get_redirector_shared_state();
+            let r1 = rs.update_bpf_object(obj).await;
+            let r2 = rs.set_local_port(u(&a, "local_port", 3080) as u16).await;
+            json!({"update_bpf_object": r1.is_ok(), "set_local_port": r2.is_ok()})
+        }
+        // driver-side access to the SAME kernel maps through second handles opened by map id
+        "bpf_map" => {
+            use aya::maps::{HashMap as BpfHashMap, Map, MapData};
+            let name = s(&a, "map");
+            let id = match BPF_MAP_IDS.get().and_then(|m| m.get(&name)) { Some(i) => *i, None => return json!({"err": "unknown map"}) };
+            let md = match MapData::from_id(id) { Ok(m) => m, Err(e) => return json!({"err": e.to_string()}) };
+            let act = s(&a, "action");
+            let words = |h: &str| -> Vec<u32> { hex::decode(h).unwrap_or_default().chunks(4).map(|c| u32::from_ne_bytes([c[0], c[1], c[2], c[3]])).collect() };
+            let hexw = |w: &[u32]| -> String { w.iter().map(|x| hex::encode(x.to_ne_bytes())).collect::<Vec<_>>().join("") };
+            macro_rules! run {
+                ($variant:ident, $k:ty, $v:ty, $kn:expr, $vn:expr) => {{
+                    let mut m: BpfHashMap<MapData, $k, $v> = match BpfHashMap::try_from(Map::$variant(md)) { Ok(m) => m, Err(e) => return json!({"err": e.to_string()}) };
+                    match act.as_str() {
+                        "insert" => {
+                            let kw = words(&s(&a, "key")); let vw = words(&s(&a, "value"));
+                            if kw.len() != $kn || vw.len() != $vn { return json!({"err": "size mismatch"}); }
+                            let mut k: $k = [0; $kn]; k.copy_from_slice(&kw);
+                            let mut v: $v = [0; $vn]; v.copy_from_slice(&vw);
+                            match m.insert(k, v, 0) { Ok(()) => json!({}), Err(e) => json!({"err": e.to_string()}) }
+                        }
+                        "get" => {
+                            let kw = words(&s(&a, "key"));
+                            if kw.len() != $kn { return json!({"err": "size mismatch"}); }
+                            let mut k: $k = [0; $kn]; k.copy_from_slice(&kw);
+                            match m.get(&k, 0) { Ok(v) => json!({"value": hexw(&v)}), Err(_) => json!({"value": Value::Null}) }
+                        }
+                        "delete" => {
+                            let kw = words(&s(&a, "key"));
+                            let mut k: $k = [0; $kn]; k.copy_from_slice(&kw);
+                            match m.remove(&k) { Ok(()) => json!({}), Err(e) => json!({"err": e.to_string()}) }
+                        }
+                        _ => {
+                            let mut out = Vec::new();
+                            for item in m.iter() {
+                                if let Ok((k, v)) = item { out.push(json!([hexw(&k), hexw(&v)])); }
+                            }
+                            json!({ "entries": out })
+                        }
+                    }
+                }};
+            }
+            match name.as_str() {
+                "audit_map" => run!(LruHashMap, [u32; 2], [u32; 5], 2, 5),
+                "policy_map" => run!(HashMap, [u32; 6], [u32; 6], 6, 6),
+                "skip_process_map" => run!(HashMap, [u32; 1], [u32; 1], 1, 1),
+                _ => run!(LruHashMap, [u32; 2], [u32; 6], 2, 6),
+            }
         }
         "delay_counts" => {
             let c = agentlib::verif_hook::counts();
